@@ -13,7 +13,8 @@ MANIFEST = dict(
          "is replayed on the real composite and decorator controllers: sync, change every related object (touch / relabel / "
          "delete, delivered through the simulated watch to the real handlers), sync, bump the parent's generation (optionally the "
          "hook then answers with other rules), sync. TLC validates the trace against spec/TraceCustomize.tla (TraceSync extended by "
-         "the customize cache and the last related map): C15_Exact, C15_Errors, C15_Once, C15_Wakes.",
+         "the customize cache and the last related map): C15_Exact, C15_Errors, C15_Once, C15_Wakes."
+         " Variants: related objects changing before the parent's new generation is synced; a failing customize call while another parent's answer is cached.",
     ref="DESIGN.md §8 C15",
     tech="TLA+ definitions (statement vs code) with TLC-checked lemmas + TLC case enumeration replayed on real code + TLC trace "
          "validation")
